@@ -61,6 +61,14 @@ fn scan_p<P: Kmer>(container: &str, seq: &[u8], k: usize, score: &Score) -> Stri
 
 /// `scan <k> <p> <seq> <score> [container]`
 pub fn exec(a: &[&str]) -> String {
+    if a[0] == "sscan" {
+        // the deprecated wrapper `simple_scan`: `sscan <k> <p> <rc> <perm> <read>`
+        let k: usize = a[1].parse().unwrap();
+        let p: usize = a[2].parse().unwrap();
+        let perm = nat_list(a[4]);
+        let read = digits(a[5]);
+        return with_kmer_type!(p, sscan_p, k, a[3] == "1", &perm, &read);
+    }
     assert!(a[0] == "scan");
     let k: usize = a[1].parse().unwrap();
     let p: usize = a[2].parse().unwrap();
@@ -70,7 +78,24 @@ pub fn exec(a: &[&str]) -> String {
     with_kmer_type!(p, scan_p, container, &seq, k, &score)
 }
 
+fn sscan_p<P: debruijn::Kmer>(k: usize, rc: bool, perm: &[usize], read: &[u8]) -> String {
+    crate::c08::sscan::<P>(k, rc, perm, read)
+}
+
 pub fn gen(rng: &mut Rng, tier: &str) -> String {
+    if rng.chance(1, 10) {
+        // `simple_scan`: a permutation score (random permutation, rc mode on or off), p <= 4 so that the table stays small
+        let p = *rng.pick(&[2usize, 3, 4]);
+        let k = p + if rng.chance(1, 6) { 0 } else { rng.below(13) };
+        let alpha = rng.range(2, 4);
+        let len = if rng.chance(1, 40) { rng.below(k) } else { k + rng.below(60) };
+        let seq = random_seq(rng, len, alpha);
+        let n = 1usize << (2 * p);
+        let mut v: Vec<usize> = (0..n).collect();
+        if rng.chance(3, 4) { for i in (1..n).rev() { let j = rng.below(i + 1); v.swap(i, j); } }
+        if rng.chance(1, 12) { v.pop(); }
+        return format!("C07 sscan {} {} {} {} {}", k, p, rng.below(2), show_nat_list(&v), show_digits(&seq));
+    }
     let ps: &[usize] = if tier == "thorough" { &[2, 3, 4, 5, 6, 8, 10, 12, 14, 15, 16] } else { &[2, 3, 4, 5, 8] };
     let p = *rng.pick(ps);
     let k = p + if rng.chance(1, 6) { 0 } else { rng.below(13) };
